@@ -8,6 +8,27 @@ from .dataflow import (local_defs, holds, raise_guards, names_in,
                        closure_names, Atom)
 
 
+
+from .core import helper_closure, resolve_local_call, call_name, calls_in as _calls_in
+
+
+def _coord_scopes(fn, coord_param):
+    """[(function, local name of the coordinate argument)] for fn and the
+    helpers that receive the coordinates as an argument."""
+    out = [(fn, coord_param)]
+    for c in _calls_in(fn.node):
+        callee = resolve_local_call(fn, c)
+        if callee is None:
+            continue
+        params = [p for p in callee.params if p not in ("self", "cls")]
+        for i, a in enumerate(c.args):
+            if isinstance(a, ast.Name) and a.id == coord_param and i < len(params):
+                out.append((callee, params[i]))
+        for k in c.keywords:
+            if isinstance(k.value, ast.Name) and k.value.id == coord_param:
+                out.append((callee, k.arg))
+    return out
+
 def _elem_sources(fn, defs):
     """name -> set of source texts for names bound to *elements* of an
     iterable (comprehension / for targets, incl. through zip)."""
@@ -31,50 +52,26 @@ def strict_morton_bound(repo, col):
     """compressed_morton_code: a guard must reject grid_coord >= grid_size."""
     rule = "E-BOUND.strict-index"
     fn = repo.func("sharded_base", "ShardVolumeSpec.compressed_morton_code")
-    defs = local_defs(fn.node)
     params = [p for p in fn.params if p != "self"]
     if not params:
         raise AnalysisError("compressed_morton_code lost its parameter")
-    coord_param = params[0]
-    src = _elem_sources(fn, defs)
     size_attr = "self.grid_sizes"
-    if size_attr not in norm(fn.node):
-        raise AnalysisError("anchor vanished: %s in %s" % (size_attr, fn.key))
-
-    def side(expr):
-        txt = norm(expr)
-        names = names_in(expr)
-        if isinstance(expr, ast.Subscript):
-            base = norm(expr.value)
-            if base == coord_param:
-                return "coord"
-            if base == size_attr:
-                return "size"
-        for n in names:
-            for s in src.get(n, ()):
-                if s == coord_param:
-                    return "coord"
-                if s == size_attr:
-                    return "size"
-        if txt == size_attr:
-            return "size"
-        return None
-
     found = []
-    for st, atoms in _all_guard_atoms(fn):
-        for a in atoms:
-            l, r = side(a.left), side(a.right)
-            if l == "size" and r == "coord":
-                a, l, r = a.flipped(), "coord", "size"
-            if l == "coord" and r == "size":
-                found.append((st, a))
+    mentions = False
+    for g, coord_param in _coord_scopes(fn, params[0]):
+        if size_attr in norm(g.node):
+            mentions = True
+        found += [(g, st, a) for st, a in _index_vs_count_atoms(
+            g, coord_param, size_attr)]
+    if not mentions:
+        raise AnalysisError("anchor vanished: %s in %s" % (size_attr, fn.key))
     if not found:
         col.add(rule, fn, "grid_coord < grid_size", False,
                 "no raise-guard compares the grid coordinates with "
                 "self.grid_sizes: positions outside the grid are accepted")
         return
-    strict = [(st, a) for st, a in found if a.op == "<"]
-    for st, a in found:
+    strict = [x for x in found if x[2].op == "<"]
+    for g, st, a in found:
         ok = a.op == "<"
         # a non-strict guard is harmless only if a strict one exists too
         if not ok and strict:
@@ -87,25 +84,58 @@ def strict_morton_bound(repo, col):
                 "rejected", node=st)
 
 
+def _index_vs_count_atoms(fn, coord_param, size_attr):
+    defs = local_defs(fn.node)
+    src = _elem_sources(fn, defs)
+
+    def side(expr):
+        txt = norm(expr)
+        names = names_in(expr)
+        if isinstance(expr, ast.Subscript):
+            base = norm(expr.value)
+            if base == coord_param:
+                return "coord"
+            if base == size_attr:
+                return "size"
+        for n in names:
+            for s_ in src.get(n, ()):
+                if s_ == coord_param:
+                    return "coord"
+                if s_ == size_attr:
+                    return "size"
+        if txt == size_attr:
+            return "size"
+        return None
+    out = []
+    for st, atoms in _all_guard_atoms(fn):
+        for a in atoms:
+            l, r = side(a.left), side(a.right)
+            if l == "size" and r == "coord":
+                a, l, r = a.flipped(), "coord", "size"
+            if l == "coord" and r == "size":
+                out.append((st, a))
+    return out
+
+
 def morton_nonneg(repo, col):
     rule = "E-BOUND.nonneg-index"
     fn = repo.func("sharded_base", "ShardVolumeSpec.compressed_morton_code")
-    defs = local_defs(fn.node)
     params = [p for p in fn.params if p != "self"]
-    coord_param = params[0]
-    src = _elem_sources(fn, defs)
     ok = False
     where = None
-    for st, atoms in _all_guard_atoms(fn):
-        for a in atoms:
-            for x, other, ops in ((a.left, a.right, (">=",)),
-                                  (a.right, a.left, ("<=",))):
-                nm = names_in(x)
-                is_coord = any(coord_param in src.get(n, ()) for n in nm) or \
-                    (isinstance(x, ast.Subscript) and
-                     norm(x.value) == coord_param)
-                if is_coord and const_int(other) == 0 and a.op in ops:
-                    ok, where = True, st
+    for g, coord_param in _coord_scopes(fn, params[0]):
+        defs = local_defs(g.node)
+        src = _elem_sources(g, defs)
+        for st, atoms in _all_guard_atoms(g):
+            for a in atoms:
+                for x, other, ops in ((a.left, a.right, (">=",)),
+                                      (a.right, a.left, ("<=",))):
+                    nm = names_in(x)
+                    is_coord = any(coord_param in src.get(n, ()) for n in nm) \
+                        or (isinstance(x, ast.Subscript) and
+                            norm(x.value) == coord_param)
+                    if is_coord and const_int(other) == 0 and a.op in ops:
+                        ok, where = True, st
     col.add(rule, fn, "grid_coord >= 0", ok,
             "negative grid coordinates are rejected" if ok else
             "no guard rejects negative grid coordinates", node=where)
@@ -323,35 +353,97 @@ def cmc_lattice(repo, col):
         col.add(rule, fn, "unpack", True, "coordinate / chunk-size names not "
                 "unpacked by name", undecided=True)
         return
+    from .dataflow import single_defs, expand
+    table = single_defs(fn.node, defs)
     guards = _all_guard_atoms(fn)
+    src = _elem_sources(fn, defs)
+    covered = set()
+    unresolved_mod_guard = False
+
+    def tuple_elts(txt_or_node):
+        node = txt_or_node
+        if isinstance(node, ast.Name) and node.id in table:
+            node = table[node.id]
+        if isinstance(node, (ast.Tuple, ast.List)):
+            return [norm(e) for e in node.elts]
+        return None
+    # zip bindings: name -> (position in zip, zip call)
+    zips = {}
+    for n in walk_local(fn.node):
+        if isinstance(n, (ast.For, ast.comprehension)) and \
+                isinstance(n.iter, ast.Call) and \
+                (dotted(n.iter.func) == "zip") and \
+                isinstance(n.target, ast.Tuple):
+            for k, t in enumerate(n.target.elts):
+                if isinstance(t, ast.Name):
+                    zips[t.id] = (k, n.iter)
+    for st, atoms in guards:
+        for a in atoms:
+            if not (isinstance(a.left, ast.BinOp) and
+                    isinstance(a.left.op, ast.Mod) and a.op == "==" and
+                    norm(a.right) == "0"):
+                continue
+            L, R = a.left.left, a.left.right
+            if isinstance(L, ast.Name) and isinstance(R, ast.Name) and \
+                    L.id in zips and R.id in zips and \
+                    zips[L.id][1] is zips[R.id][1]:
+                z = zips[L.id][1]
+                A = tuple_elts(z.args[zips[L.id][0]])
+                B = tuple_elts(z.args[zips[R.id][0]])
+                if A and B and len(A) == len(B):
+                    covered |= set(zip(A, B))
+                else:
+                    unresolved_mod_guard = True
+            else:
+                covered.add((norm(L), norm(R)))
+    any_mod_guard = bool(covered) or unresolved_mod_guard
     for ax in range(3):
         lo, c = comp[2 * ax], cs[ax]
-        ok = False
-        for st, atoms in guards:
-            for a in atoms:
-                if norm(a.left) == "%s %% %s" % (lo, c) and a.op == "==" \
-                        and norm(a.right) == "0":
-                    ok = True
+        ok = (lo, c) in covered
         col.add(rule, fn, "%s %% %s == 0" % ("xyz"[ax] + "min", "xyz"[ax] + "cs"),
                 ok, "" if ok else "no guard rejects %s that is not a "
-                "multiple of %s" % (lo, c))
+                "multiple of %s" % (lo, c),
+                undecided=not ok and unresolved_mod_guard)
     # grid coordinate = lower corner / chunk size, per axis, in x,y,z order
     ok_order = False
+    recognisable = False
+    want = []
+    for ax in range(3):
+        lo, c = comp[2 * ax], cs[ax]
+        want.append({"int(%s / %s)" % (lo, c), "%s // %s" % (lo, c),
+                     "int(%s // %s)" % (lo, c)})
     for name, ds in defs.items():
         for d in ds:
             v = d.value
             if isinstance(v, (ast.List, ast.Tuple)) and len(v.elts) == 3:
                 texts = [norm(e) for e in v.elts]
-                want = []
-                for ax in range(3):
-                    lo, c = comp[2 * ax], cs[ax]
-                    want.append({"int(%s / %s)" % (lo, c), "%s // %s" % (lo, c),
-                                 "int(%s // %s)" % (lo, c)})
+                if any("/" in t for t in texts):
+                    recognisable = True
                 if all(t in w for t, w in zip(texts, want)):
                     ok_order = True
+            if isinstance(v, ast.ListComp) and len(v.generators) == 1 and \
+                    isinstance(v.generators[0].iter, ast.Call) and \
+                    dotted(v.generators[0].iter.func) == "zip" and \
+                    isinstance(v.generators[0].target, ast.Tuple):
+                g = v.generators[0]
+                tn = [t.id for t in g.target.elts if isinstance(t, ast.Name)]
+                seqs = [tuple_elts(x) for x in g.iter.args]
+                if len(tn) == len(seqs) == 2 and all(seqs) and \
+                        len(seqs[0]) == len(seqs[1]) == 3:
+                    texts = []
+                    for i in range(3):
+                        e = expand(v.elt, {tn[0]: ast.Name(id=seqs[0][i],
+                                                           ctx=ast.Load()),
+                                           tn[1]: ast.Name(id=seqs[1][i],
+                                                           ctx=ast.Load())}, 1)
+                        texts.append(norm(e))
+                    recognisable = True
+                    if all(t in w for t, w in zip(texts, want)):
+                        ok_order = True
     col.add(rule, fn, "grid_coords = [xmin/xcs, ymin/ycs, zmin/zcs]", ok_order,
             "" if ok_order else "grid coordinates are not the per-axis "
-            "quotients in x, y, z order")
+            "quotients in x, y, z order", undecided=not ok_order
+            and not recognisable)
 
 
 # ---------------------------------------------------------------------
@@ -368,28 +460,81 @@ def _table_values(module, name):
 
 def negative_step_slices(repo, col):
     """A slice whose step may be negative and whose stop is a computed index
-    silently wraps when the stop reaches -1; the stop must map to None."""
+    silently wraps when the stop reaches -1; the stop must map to None.
+    Slices are looked for in the conversion function and the local helpers
+    it calls, written either as subscript slices (np.s_[a:b:c]) or as
+    slice(a, b, c) calls."""
     rule = "E-BOUND.neg-step"
     m = repo.module("scripts.slices_to_precomputed")
-    fn = repo.func("scripts.slices_to_precomputed", "slices_to_raw_chunks")
-    defs = local_defs(fn.node)
+    top = repo.func("scripts.slices_to_precomputed", "slices_to_raw_chunks")
     inv = _table_values(m, "AXIS_INVERSION_FOR_RAS")
     if inv is None:
         raise AnalysisError("anchor vanished: AXIS_INVERSION_FOR_RAS")
+    from .core import helper_closure, resolve_local_call, calls_in
+    fns = helper_closure(top, depth=2)
+    callers = {}          # helper key -> [(caller fn, call)]
+    for f in fns:
+        for c in calls_in(f.node):
+            h = resolve_local_call(f, c)
+            if h is not None and h is not f:
+                callers.setdefault(h.key, []).append((f, c))
+    defs_of = {f.key: local_defs(f.node) for f in fns}
 
-    def may_be_negative(step):
-        c = const_int(step)
-        if c is not None:
-            return c < 0
-        clos = closure_names(fn.node, names_in(step), defs)
+    def table_derived(f, names, depth=0):
+        """True / False / None(unknown): do these names derive from the
+        inversion table (whose values include -1)?"""
+        defs = defs_of[f.key]
+        clos = closure_names(f.node, names, defs)
         for n in clos:
             for d in defs.get(n, []):
                 if d.value is not None and \
                         "AXIS_INVERSION_FOR_RAS" in norm(d.value):
-                    return any(v is not None and v < 0 for v in inv)
+                    return True
+                # tuple returned by a helper that reads the table
+                if d.value is not None:
+                    for c in calls_in(d.value):
+                        h = resolve_local_call(f, c)
+                        if h is not None and "AXIS_INVERSION_FOR_RAS" in \
+                                norm(h.node):
+                            return True
+        params = [p for p in clos if p in f.params]
+        if params and depth < 2 and f.key in callers:
+            res = False
+            for cf, c in callers[f.key]:
+                for p in params:
+                    idx = f.params.index(p)
+                    arg = c.args[idx] if idx < len(c.args) else None
+                    for k in c.keywords:
+                        if k.arg == p:
+                            arg = k.value
+                    if arg is None:
+                        continue
+                    ci = const_int(arg)
+                    if ci is not None:
+                        if ci < 0:
+                            return True
+                        continue
+                    r = table_derived(cf, names_in(arg), depth + 1)
+                    if r:
+                        return True
+                    if r is None:
+                        res = None
+            return res
+        if params and f is not top:
+            return None
         return False
 
-    def none_guarded(stop):
+    def may_be_negative(f, step):
+        c = const_int(step)
+        if c is not None:
+            return c < 0
+        r = table_derived(f, names_in(step))
+        if r:
+            return any(v is not None and v < 0 for v in inv)
+        return r
+
+    def none_guarded(f, stop, depth=0):
+        defs = defs_of[f.key]
         if stop is None:
             return True
         if isinstance(stop, ast.Constant) and stop.value is None:
@@ -399,43 +544,58 @@ def negative_step_slices(repo, col):
             if any(isinstance(x, ast.Constant) and x.value is None
                    for x in arms):
                 return True
-        if isinstance(stop, ast.Name):
+        if isinstance(stop, ast.Name) and depth < 3:
             ds = defs.get(stop.id, [])
-            vals = [d.value for d in ds if d.value is not None]
-            # every definition that can be negative must be None-guarded:
-            # accept when some definition assigns None under a test on it or
-            # every arithmetic definition is wrapped in an IfExp with None
+            vals = [d.value for d in ds if d.value is not None
+                    and d.index is None]
             if any(isinstance(v, ast.Constant) and v.value is None
                    for v in vals):
                 return True
+            if vals and all(none_guarded(f, v, depth + 1) for v in vals):
+                return True
             arith = [v for v in vals if not isinstance(v, ast.Name)]
-            if arith and all(none_guarded(v) for v in arith
-                             if _can_reach_minus_one(v)):
-                return any(_can_reach_minus_one(v) for v in arith) and \
-                    all(none_guarded(v) for v in arith
-                        if _can_reach_minus_one(v))
+            risky = [v for v in arith if _can_reach_minus_one(v)]
+            if risky and all(none_guarded(f, v, depth + 1) for v in risky):
+                return True
         return False
 
     n_sites = 0
-    for n in walk_local(fn.node):
-        if isinstance(n, ast.Slice) and n.step is not None \
-                and may_be_negative(n.step):
+    n_unknown = 0
+    for f in fns:
+        for n in walk_local(f.node):
+            lower = upper = step = None
+            if isinstance(n, ast.Slice) and n.step is not None:
+                upper, step = n.upper, n.step
+            elif isinstance(n, ast.Call) and call_name(n) == "slice" and \
+                    len(n.args) == 3:
+                upper, step = n.args[1], n.args[2]
+                if isinstance(upper, ast.Constant) and upper.value is None:
+                    upper = None
+            else:
+                continue
+            neg = may_be_negative(f, step)
+            if neg is False:
+                continue
+            if neg is None:
+                n_unknown += 1
             n_sites += 1
-            if n.upper is None:
-                col.add(rule, fn, "[%s]" % norm(n), True,
+            if upper is None:
+                col.add(rule, f, "[%s]" % norm(n), True,
                         "stop omitted: reaches the first element for either "
                         "sign of the step", node=n, nontrivial=False)
                 continue
-            ok = none_guarded(n.upper)
-            col.add(rule, fn, "[%s]" % norm(n), ok,
+            ok = none_guarded(f, upper)
+            und = not ok and neg is None
+            col.add(rule, f, "[%s]" % norm(n), ok or und,
                     "stop is mapped to None when negative" if ok else
                     "step %s can be -1 while stop %s is a computed index: for "
                     "the window that must reach element 0 the stop becomes -1,"
                     " which Python reads as 'last element' (empty window)"
-                    % (norm(n.step), norm(n.upper)), node=n)
+                    % (norm(step), norm(upper)), node=n, undecided=und)
     if n_sites == 0:
-        raise AnalysisError("no possibly-negative-step slice found in %s "
-                            "(anchor vanished)" % fn.key)
+        col.add(rule, top, "possibly-negative-step slice", True,
+                "no slice with a step that can be negative was recognised in "
+                "%s or its helpers" % top.key, undecided=True)
 
 
 def _can_reach_minus_one(expr):
